@@ -388,14 +388,10 @@ func scenarios(r *ev.Run) []scenario {
 		{Name: "3proxy-3thr-b4", Proxies: 3, Block: 4, Threads: []thr{{0, 3}, {1, 1}, {2, 2}}, Faults: true},
 		// upper limit of the sequence (errors without a fetch are fine)
 		{Name: "1proxy-maxlimit", Proxies: 1, Block: 2, MaxLimit: 5, Threads: one(2), Faults: true},
-	}
-	if r.Thorough() {
-		s = append(s,
-			scenario{Name: "3proxy-3thr-b2", Proxies: 3, Block: 2, Threads: []thr{{0, 3}, {1, 3}, {2, 3}}, Faults: true},
-			scenario{Name: "2proxy-3thr-b3", Proxies: 2, Block: 3, Threads: []thr{{0, 3}, {0, 3}, {1, 3}}, Faults: true},
-			scenario{Name: "1proxy-3thr-b1", Proxies: 1, Block: 1, Threads: []thr{{0, 2}, {0, 2}, {0, 2}}, Faults: true},
-			scenario{Name: "2proxy-2thr-b4", Proxies: 2, Block: 4, Threads: []thr{{0, 3}, {1, 3}}, Faults: true},
-		)
+		{Name: "3proxy-3thr-b2", Proxies: 3, Block: 2, Threads: []thr{{0, 3}, {1, 3}, {2, 3}}, Faults: true},
+		{Name: "2proxy-3thr-b3", Proxies: 2, Block: 3, Threads: []thr{{0, 3}, {0, 3}, {1, 3}}, Faults: true},
+		{Name: "1proxy-3thr-b1", Proxies: 1, Block: 1, Threads: []thr{{0, 2}, {0, 2}, {0, 2}}, Faults: true},
+		{Name: "2proxy-2thr-b4", Proxies: 2, Block: 4, Threads: []thr{{0, 3}, {1, 3}}, Faults: true},
 	}
 	return s
 }
